@@ -9,6 +9,7 @@ import tempfile
 import threading
 import time
 
+from xonsh import _verif_hooks as _vh
 from xonsh.built_ins import XSH
 
 try:
@@ -362,6 +363,7 @@ class JsonHistoryFlusher(threading.Thread):
             self.start()
 
     def run(self):
+        _vh.point("json.flusher.run", flusher=self)
         with self.cond:
             self.cond.wait_for(self.i_am_at_the_front)
             self.dump()
